@@ -175,7 +175,7 @@ static void do_trl(const vector<string>& t) {
     if (rres == "ok") {
       hm = zr == 0 && nr != nout;                       // UPS point in the other hemisphere
       if (zr > 0 && nr != nout) yr += (nout ? -1 : 1) * shift;
-      if (tres == "ok") { long double d = hypotl((long double)xo - xr, (long double)yo - yr) * 1e9L; err = d > 2e9L ? 2000000000LL : (long long) ceill(d); }
+      if (tres == "ok") { long double d = hypotl((long double)xo - xr, (long double)yo - yr) * 1e9L; err = !(d <= 2e9L) ? 2000000000LL : (long long) ceill(d); }
     }
   }
   r.str("ref", rres).b("hm", hm).i("zr", zr).i("err", err);
@@ -217,9 +217,9 @@ static long long dist_nm(double lat1, double lon1, double lat2, double lon2) {
   long double c = cosl((long double)lat1 * 3.14159265358979323846L / 180);
   long double m = 111319.49L; // metres per degree (scale only; tolerance law)
   long double d = hypotl(dlat * m, dlon * m * c) * 1e9L;
-  return d > 2e9L ? 2000000000LL : (long long) ceill(d);
+  return !(d <= 2e9L) ? 2000000000LL : (long long) ceill(d);
 }
-static long long dnm(double a, double b) { long double d = fabsl((long double)a - b) * 1e9L; return d > 2e9L ? 2000000000LL : (long long) ceill(d); }
+static long long dnm(double a, double b) { long double d = fabsl((long double)a - b) * 1e9L; return !(d <= 2e9L) ? 2000000000LL : (long long) ceill(d); }
 
 static void do_record(uint64_t seed, long long n) {
   vt::Rng g(seed);
@@ -265,7 +265,7 @@ static void do_record(uint64_t seed, long long n) {
         fres = guarded([&] { UTMUPS::Forward(lat, lon, z2, n2, x2, y2, g2, k2, zone); });
         if (fres == "ok") {
           if (zone > 0 && n2 != northp) y2 += (northp ? -1 : 1) * UTMUPS::UTMShift();   // continued across the equator
-          long double d = hypotl((long double)x2 - x, (long double)y2 - y) * 1e9L; err = d > 2e9L ? 2000000000LL : (long long) ceill(d);
+          long double d = hypotl((long double)x2 - x, (long double)y2 - y) * 1e9L; err = !(d <= 2e9L) ? 2000000000LL : (long long) ceill(d);
         }
       }
       r.b("latok", res != "ok" || (fabs(lat) <= 90 && fabs(lon) <= 180));
@@ -310,7 +310,12 @@ static void do_record(uint64_t seed, long long n) {
       });
       Rec r; r.str("e", "tr").i("zin", zin).b("nin", nin).i("zout", zout).b("nout", nout).str("f0", f0).str("out", tres).str("ref", rres);
       long long err = -1;
-      if (tres == "ok" && rres == "ok") { long double d = hypotl((long double)xo - xr, (long double)yo - yr) * 1e9L; err = d > 2e9L ? 2000000000LL : (long long) ceill(d); }
+      if (tres == "ok" && rres == "ok") {
+        // NaN coordinates (the INVALID zone) agree with NaN coordinates only; a NaN distance must not reach the integer conversion
+        bool nx = std::isnan(xo) || std::isnan(xr), ny = std::isnan(yo) || std::isnan(yr);
+        long double dx = nx ? ((std::isnan(xo) && std::isnan(xr)) ? 0.0L : 10.0L) : (long double)xo - xr;
+        long double dy = ny ? ((std::isnan(yo) && std::isnan(yr)) ? 0.0L : 10.0L) : (long double)yo - yr;
+        long double d = hypotl(dx, dy) * 1e9L; err = !(d <= 2e9L) ? 2000000000LL : (long long) ceill(d); }
       r.i("zo", zo).i("zr", zr).i("err", err).b("untouched", vt::is_sentinel(xo, 1) && vt::is_sentinel(yo, 2) && zo == -99).b("flipped", flipped);
       r.emit();
     }
